@@ -72,6 +72,9 @@ pub struct Par {
     pub entropy: Entropy,
     /// explicit contents per file id (adversarial scenarios); PRF cells otherwise
     pub custom: HashMap<u64, Vec<u8>>,
+    /// the reader configuration ALSO carries the fail-safe option "return data even unauthenticated" (an application
+    /// sharing one configuration helper between its read and repair paths): the NORMAL reader must not be affected
+    pub fsopt: bool,
 }
 
 impl Par {
@@ -82,6 +85,7 @@ impl Par {
             nrecip: v.get("nrecip").and_then(Value::as_u64).unwrap_or(1) as usize,
             reader: v.get("reader").and_then(Value::as_u64).unwrap_or(0) as usize,
             seed: v.get("seed").and_then(Value::as_u64).unwrap_or(1),
+            fsopt: v.get("fsopt").and_then(Value::as_bool).unwrap_or(false),
             entropy: Entropy::parse(v.get("entropy").and_then(Value::as_str).unwrap_or("high")),
             custom: v.get("custom").and_then(Value::as_object).map(|m| {
                 m.iter().map(|(k, x)| (k.parse().unwrap(), hex::decode(x.as_str().unwrap()).unwrap())).collect()
@@ -129,6 +133,9 @@ pub fn reader_config(par: &Par) -> ArchiveReaderConfig {
     if par.stack.enc {
         let ks = keypairs(par.seed, par.nrecip.max(1));
         c.add_private_keys(&[ks[par.reader % ks.len()].0.clone()]);
+    }
+    if par.fsopt {
+        c.failsafe_return_data_even_unauthenticated();
     }
     c
 }
